@@ -74,6 +74,19 @@ def gen_arena(r, n):
     return [("rs" if r.random() < 0.15 else "n:%d" % r.choice([1, 8, 24])) for _ in range(n)]
 
 
+def gen_rarena(r, n):
+    ops, live = [], 0
+    for _ in range(n):
+        c = r.random()
+        if c < 0.55 or live == 0:
+            ops.append("n:%d" % r.choice([1, 8, 24])); live += 1
+        elif c < 0.95:
+            ops.append("d:%d" % r.randrange(live)); live -= 1
+        else:
+            ops.append("rs"); live = 0
+    return ops
+
+
 def gen_map(r, n):
     ops = []
     keys = [r.randrange(40) for _ in range(r.choice([3, 6, 12]))]
@@ -120,19 +133,27 @@ FIXED = [
     ("map", None, ["i0:1", "i0:4", "i0:7", "i0:10", "i0:13", "i0:16", "i0:19", "i0:22", "e0:1", "e0:4", "e0:7", "i1:3", "a0", "a1"]),
     ("map", None, ["i0:1", "i0:2", "c0", "i0:3", "i0:4", "i0:5", "c0", "i0:1"]),
     ("map", None, ["i0:1", "x", "i0:2", "i1:3"]),
+    ("map", None, ["i1:5", "a1", "e1:27", "i0:36", "i0:5", "a1", "i0:5"]),
+    ("rarena", None, ["2", "n:8", "n:8", "n:8", "d:1", "n:4", "d:0", "d:0"]),
+    ("rarena", None, ["1", "n:8", "n:8", "d:0", "d:0", "n:8"]),
+    ("rarena", None, ["2"]),
+    ("rarenad", None, ["2", "n:8", "d:0"]),
+    ("rarenad", None, ["2", "n:8", "n:8", "n:8", "d:2", "d:1", "d:0"]),
 ]
+
+NO_MODEL = ("rarena", "rarenad")
 
 
 def make_cases(ctx, n_rand):
     """[(id, family, fuse or None, tokens)] — every fault-free history also with every / sampled fuse values"""
     r = ctx.rng
     base = list(FIXED)
-    gens = {"vec": gen_vec, "list": gen_list, "arena": gen_arena, "map": gen_map}
-    for fam in ("vec", "list", "arena", "map"):
+    gens = {"vec": gen_vec, "list": gen_list, "arena": gen_arena, "map": gen_map, "rarena": gen_rarena, "rarenad": gen_rarena}
+    for fam in ("vec", "list", "arena", "map", "rarena", "rarenad"):
         for _ in range(n_rand):
             n = r.choice([2, 4, 8, 12, 20] if fam != "map" else [3, 6, 12, 25])
             ops = gens[fam](r, n)
-            if fam == "arena":
+            if "arena" in fam:
                 ops = [str(r.choice([1, 2, 3, 5]))] + ops
             base.append((fam, None, ops))
     cases = []
@@ -198,7 +219,7 @@ def parse(line, sizes=None):
     return segs
 
 
-def canonical(line, sizes=None):
+def canonical(line, sizes=None, stop_at=None):
     """Order-insensitive within an operation: blocks are renamed (operation index, rank among the operation's
     allocations sorted by (bytes, manager)); the events of an operation become a sorted multiset; in an
     operation that threw, blocks allocated and released inside it cancel (net effect).  When the destructor
@@ -213,6 +234,9 @@ def canonical(line, sizes=None):
         if head == "DT":
             out.append("DT")
             break
+        if head == "CRASH":
+            out.append("CRASH")
+            break
         allocs = [e for e in evs if e[0] == "A"]
         order = sorted(range(len(allocs)), key=lambda i: (allocs[i][2], allocs[i][1], i))
         for rank, i in enumerate(order):
@@ -225,13 +249,24 @@ def canonical(line, sizes=None):
                 evc.append(("F", e[1], name.get(e[2], "?" + e[2])))
             else:
                 evc.append(e)
-        if head == "T":
+        if head in ("T", "TERMINATE"):
             freed = {e[2] for e in evc if e[0] == "F"}
             made = {e[3] for e in evc if e[0] == "A"}
             both = freed & made
             evc = [e for e in evc if not ((e[0] == "A" and e[3] in both) or (e[0] == "F" and e[2] in both))]
+        if head == "TERMINATE" or (stop_at is not None and si == stop_at):
+            # std::terminate inside this operation (a destructor was refused memory): nothing after it is comparable
+            out.append("T! %s" % " ".join(map(str, sorted(evc, key=str))))
+            break
         out.append("%s %s %s" % (head, " ".join(map(str, sorted(evc, key=str))), obs))
     return " | ".join(out)
+
+
+def terminate_index(line):
+    for si, (head, evs, obs) in enumerate(parse(line)):
+        if head == "TERMINATE":
+            return si
+    return None
 
 
 # ---------------------------------------------------------------------------------------------------------
@@ -245,6 +280,14 @@ def oracle_container(c, line):
     cid, fam, fuse, ops = c
     res = []
     segs = parse(line)
+    if any(s[0] == "TERMINATE" for s in segs):
+        if fuse is None:
+            return [(None, "std::terminate without any injected refusal")]
+        return [("K8", "a destructor reached from an operation (the temporary of operator=) asked the manager for memory and was refused: std::terminate")]
+    if any(s[0] == "CRASH" for s in segs):
+        if fuse is not None and fam.startswith("rarena"):
+            return [("K-new-3", "crash after an object constructor threw between allocateBlock and commitAllocation")]
+        return [(None, "the harness child crashed: " + line[-80:])]
     end = [s for s in segs if s[0] == "end"]
     if not end:
         return [(None, "no result line (crash of the harness?)")]
@@ -252,7 +295,10 @@ def oracle_container(c, line):
     out, bad = int(kv.get("out", -1)), int(kv.get("bad", -1))
     threw = [i for i, s in enumerate(segs) if s[0] == "T"]
     dt = any(s[0] == "DT" for s in segs)
-    if bad != 0:
+    if bad != 0 and fuse is not None and fam.startswith("rarena") and threw:
+        # ~ReusableArenaBlock destroys the slot that allocateBlock() counted although its constructor threw
+        res.append(("K-new-3", "a never-constructed arena slot was destroyed after its constructor threw (foreign free)"))
+    elif bad != 0:
         res.append((None, "a deallocate of a block that is not outstanding in that manager (foreign or double free)"))
     if fuse is None and threw:
         res.append((None, "operation %d threw although no refusal was injected" % threw[0]))
@@ -263,8 +309,12 @@ def oracle_container(c, line):
         if dtor_allocs and fam in ("vec", "list"):
             res.append((None, "a %s destructor allocated" % fam))
     if out != 0 and not dt:
-        if fuse is None:
+        if fuse is None and fam == "rarenad":
+            res.append(("K-new-6", "%d blocks never released by a ReusableArenaAllocator(destroyBlocks=true)" % out))
+        elif fuse is None:
             res.append((None, "%d blocks still outstanding after the containers were destroyed (no refusal injected)" % out))
+        elif fam.startswith("rarena"):
+            res.append(("K-new-1", "%d blocks lost after a refused allocation" % out))
         elif fam in LEAK_ON_REFUSAL:
             res.append((LEAK_ON_REFUSAL[fam], "%d blocks lost after a refused allocation" % out))
         else:
@@ -297,7 +347,7 @@ def run_containers(ctx, impl, model, sizes, cases, corr, orc):
             orc.append({"case": case_line(c), "what": "no result from the implementation (crash?)", "known": None})
             continue
         li = cid + " " + li
-        if model:
+        if model and fam not in NO_MODEL:
             lm = res_m.get(cid)
             ctx.cov["traces_validated_against_impl"] += 1
             if lm is None:
@@ -305,7 +355,10 @@ def run_containers(ctx, impl, model, sizes, cases, corr, orc):
             else:
                 lm = cid + " " + lm
                 try:
-                    same = canonical(li) == canonical(lm, sizes)
+                    ti = terminate_index(li)
+                    same = canonical(li) == canonical(lm, sizes, stop_at=ti)
+                    if ti is not None and same:
+                        same = parse(lm, sizes)[ti][0] == "T"
                 except Exception as ex:      # unparsable trace
                     same = False
                 if not same:
